@@ -28,6 +28,15 @@ def cases(tier):
       sigrev=(tier == 'thorough'))
   yield from universe.graph_cases([(3, eg.TTOPO, 'first', 'none')],
                                   {'rp': 'p3', 'nd': 1})
+  if tier == 'quick':
+    # signature/IO listing variants (reversed lists, the same tensor returned
+    # under two output names) on a small core; the thorough tier has them for
+    # every two-operator graph
+    for c in universe.graph_cases([(2, eg.TCORE, 'first', 'one')],
+                                  {'rp': 'p3', 'nd': 1}, sigrev=True):
+      if any(sg.get(k) for sg in c['ir']['subgraphs']
+             for k in ('sigorder', 'ioorder', 'dupout')):
+        yield c
 
 
 def plan(tier, seed):
